@@ -104,8 +104,29 @@ fn run_ser_tree<Tr: TreeApi>(rep: &mut Rep, spec: &SeqSpec, budget: usize, defau
     let d2 = tree_battery(rep, &t2 as &dyn DynTree<Tr::Item>, &m, &mut rng, &o);
     chk!(rep, "answers identical (digest)", m.len(), Exp::Is(d1), d2);
     chk!(rep, "space_usage identical", m.len(), Exp::Is(t.space()), t2.space());
+    // a value that has already answered queries must round-trip just as well
+    chk!(rep, "round trip after queries: bytes unchanged", m.len(), Exp::Is(true), t.ser().ok().as_deref() == Some(&bytes[..]));
+    if let Ok(b3) = t.ser() {
+        if let Ok(t3) = Tr::de(&b3) {
+            chk!(rep, "round trip after queries: deserialized == original", m.len(), Exp::Is(true), t3 == t);
+            chk!(rep, "round trip after queries: original == deserialized", m.len(), Exp::Is(true), t == t3);
+        }
+    }
     if m.len() >= 2 {
         rep.nontrivial();
+    }
+}
+
+/// serialize -> deserialize -> == for a value that has already answered queries
+fn roundtrip_after_queries<T: serde::Serialize + serde::de::DeserializeOwned + PartialEq>(rep: &mut Rep, what: &'static str, v: &T) {
+    let back = guard(|| bincode::serialize(v).ok().and_then(|b| bincode::deserialize::<T>(&b).ok()));
+    rep.tick("round trip after queries");
+    match back {
+        Out::Val(Some(v2)) => {
+            chk!(rep, "round trip after queries: deserialized == original", what, Exp::Is(true), &v2 == v);
+            chk!(rep, "round trip after queries: original == deserialized", what, Exp::Is(true), v == &v2);
+        }
+        other => rep.viol("round trip after queries", what.into(), "Ok".into(), format!("{:?}", other.val().map(|o| o.is_some())), "wrong_value".into()),
     }
 }
 
@@ -150,6 +171,7 @@ fn run_ser_quad<Q: QuadApi + serde::Serialize + serde::de::DeserializeOwned>(rep
     let d2 = quad_battery(rep, &q2, &m, &mut rng, &o);
     chk!(rep, "answers identical (digest)", Q::NAME, Exp::Is(d1), d2);
     chk!(rep, "space_usage identical", Q::NAME, Exp::Is(q.space()), q2.space());
+    roundtrip_after_queries(rep, Q::NAME, &q);
     // the plain QVector too
     let qv: QVector = data.iter().copied().collect();
     if let Some(qv2) = ser_generic(rep, "QVector", &qv) {
@@ -184,6 +206,7 @@ fn run_ser_bits(rep: &mut Rep, spec: &BitSpec, budget: usize, default_state: boo
                 let d2 = bin_battery(rep, &r2, &m, &mut rng, &o);
                 chk!(rep, "answers identical (digest)", $name, Exp::Is(d1), d2);
                 chk!(rep, "space_usage identical", $name, Exp::Is(r.space()), r2.space());
+                roundtrip_after_queries(rep, $name, &r);
             }
         }};
     }
@@ -197,6 +220,7 @@ fn run_ser_bits(rep: &mut Rep, spec: &BitSpec, budget: usize, default_state: boo
                 let d1 = darray_battery(rep, &d, &m, &mut r1, &o);
                 let dd2 = darray_battery(rep, &d2, &m, &mut rng, &o);
                 chk!(rep, "answers identical (digest)", $name, Exp::Is(d1), dd2);
+                roundtrip_after_queries(rep, $name, &d);
             }
         }};
     }
